@@ -316,6 +316,18 @@ theorem output_is_nested_row_major {α : Type} {g : Grid α} {v : Pos → α} (h
     g.output sh = .ok (render (fun p => sh (v p)) g.size.reverse []) :=
   output_spec hg sh
 
+/-! ## interpolation -/
+
+/-- **interpolate_spec** — for a position whose integral part `fl` has every neighbour `fl + {0,1}^N` in range
+    (`0 ≤ fl_i`, `fl_i + 1 < size_i`), `interpolate` reads exactly those `2^N` cells (the index arithmetic
+    `value_index + (1 << n)` on the `bit_strings` array addresses the right corners, no read outside the cells) and
+    combines them coordinate by coordinate, the last coordinate outermost: `multilin`. -/
+theorem interpolate_spec {α φ : Type} {g : Grid α} {v : Pos → α} (hg : Denotes g v) (ip : φ → α → α → α)
+    (fl : Pos) (fr : List φ) (frf : Nat → φ) (hfr : ∀ k, k < g.size.length → fr[k]? = some (frf k))
+    (hfl : InRange (g.size.map (· - 1)) fl) :
+    g.interpolate fl fr ip = .ok (multilin v ip fl frf g.size.length []) :=
+  interpolate_eq hg ip fl fr frf hfr hfl
+
 /-- `in_range` (for an unsigned position: all components ≥ 0) is the in-range predicate. -/
 theorem inRange_spec {α : Type} (g : Grid α) {p : Pos} (hl : p.length = g.size.length) (hp : NonNeg p) :
     g.inRange p = true ↔ InRange g.size p :=
@@ -435,6 +447,14 @@ example : posRange [0, 2, 0] [2, 1, 2] = .ok [] ∧ rangeSize [0, 2, 0] [2, 1, 2
 -- without the reset to `min` the carry would leave the box: the model's carry really resets
 example : next [1, 0] [0, 0] [2, 2] = [0, 1] := by decide
 example : Within [1, 0] [3, 2] [3, 2] := by simp [Within]
+-- bilinear "interpolation" that only records its arguments: corners (0,0) (1,0) (0,1) (1,1) of a 2 x 2 grid
+example : (⟨[2, 2], [1, 2, 3, 4]⟩ : Grid Int).interpolate [0, 0] [10, 20] (fun f a b => f + 100 * a + 10000 * b)
+    = .ok (20 + 100 * (10 + 100 * 1 + 10000 * 2) + 10000 * (10 + 100 * 3 + 10000 * 4)) := by decide
+-- the guard is needed: at the right edge the "neighbour" x + 1 is the first cell of the next row
+-- (the guard `fl_i + 1 < size_i` of `interpolate_spec` is a precondition of the code): in a 2 x 3 grid the cells
+-- read for x = 1 are 2,3 and 4,5 — 3 and 5 belong to the rows above; in a 2 x 2 grid the last read is out of bounds
+example : (⟨[2, 3], [1, 2, 3, 4, 5, 6]⟩ : Grid Int).interpolate [1, 0] [0, 0] (fun _ a b => 10 * a + b) = .ok 275 ∧
+    (⟨[2, 2], [1, 2, 3, 4]⟩ : Grid Int).interpolate [1, 0] [0, 0] (fun _ a b => 10 * a + b) = .error .oob := by decide
 -- a 2 x 2 grid and a grid with an empty row dimension
 example : (⟨[2, 2], [1, 2, 3, 4]⟩ : Grid Int).output toString = .ok "((1,2),(3,4))" ∧
     (⟨[0, 3], []⟩ : Grid Int).output toString = .ok "((),(),())" ∧ (⟨[3, 0], []⟩ : Grid Int).output toString = .ok "()" := by
